@@ -273,6 +273,120 @@ pub fn c17() -> bool {
     bad
 }
 
+/// C13 / encoding of author heads: every author survives encode+decode without a limit (also when
+/// authors share a timestamp); under a limit the newest heads that fit are kept and the encoding is
+/// never longer than the limit (a limit too small for anything may be refused, but not exceeded).
+pub fn c13enc() -> bool {
+    use iroh_docs::{AuthorHeads, AuthorId};
+    let mut bad = false;
+    let a = |b: u8| AuthorId::from(&[b; 32]);
+    // (author byte, timestamp)
+    let sets: Vec<Vec<(u8, u64)>> = vec![
+        vec![],
+        vec![(1, 10)],
+        vec![(1, 10), (2, 10)],
+        vec![(1, 10), (2, 10), (3, 10)],
+        vec![(1, 5), (2, 10), (3, 10), (4, 7)],
+        vec![(1, 10), (2, 9), (3, 8)],
+    ];
+    for set in &sets {
+        let mut heads = AuthorHeads::default();
+        for (b, t) in set {
+            heads.insert(a(*b), *t);
+        }
+        match std::panic::catch_unwind(|| heads.encode(None)) {
+            Ok(Ok(bytes)) => match AuthorHeads::decode(&bytes) {
+                Ok(back) if back == heads => {}
+                Ok(back) => {
+                    eprintln!("c13enc{set:?}: encode(None) + decode keeps {} of {} authors", back.len(), heads.len());
+                    bad = true;
+                }
+                Err(e) => {
+                    eprintln!("c13enc{set:?}: decode failed: {e}");
+                    bad = true;
+                }
+            },
+            other => {
+                eprintln!("c13enc{set:?}: encode(None) failed: {:?}", other.map(|r| r.map(|b| b.len())).map_err(|_| "panic"));
+                bad = true;
+            }
+        }
+        for limit in 0..=(2 + 34 * set.len()) {
+            let h2 = heads.clone();
+            match std::panic::catch_unwind(move || h2.encode(Some(limit))) {
+                Err(_) => {
+                    eprintln!("c13enc{set:?}: encode(Some({limit})) panicked");
+                    bad = true;
+                    break;
+                }
+                Ok(Err(e)) => {
+                    // refusing a limit that not even the empty list (1 byte) fits into is fine
+                    if limit >= 1 {
+                        eprintln!("c13enc{set:?}: encode(Some({limit})) failed although the empty list fits: {e}");
+                        bad = true;
+                        break;
+                    }
+                }
+                Ok(Ok(bytes)) => {
+                    if bytes.len() > limit {
+                        eprintln!("c13enc{set:?}: encode(Some({limit})) returned {} bytes", bytes.len());
+                        bad = true;
+                        break;
+                    }
+                    let back = AuthorHeads::decode(&bytes).unwrap();
+                    // kept = the newest: no dropped head is newer than a kept one, and one more would not fit
+                    let kept_min = back.iter().map(|(_, t)| *t).min();
+                    let dropped_max = heads.iter().filter(|(au, _)| back.get(au).is_none()).map(|(_, t)| *t).max();
+                    if let (Some(k), Some(d)) = (kept_min, dropped_max) {
+                        if d > k {
+                            eprintln!("c13enc{set:?}: limit {limit}: dropped a head newer than a kept one");
+                            bad = true;
+                        }
+                    }
+                    if back.iter().any(|(au, t)| heads.get(au) != Some(*t)) {
+                        eprintln!("c13enc{set:?}: limit {limit}: decoded a head that was not in the set");
+                        bad = true;
+                    }
+                    if back.len() < heads.len() && limit >= bytes.len() + 34 {
+                        eprintln!("c13enc{set:?}: limit {limit}: kept {} heads in {} bytes although one more fits", back.len(), bytes.len());
+                        bad = true;
+                    }
+                }
+            }
+        }
+    }
+    bad
+}
+
+/// C13 / news detection: for all pairs of head sets over 3 authors with timestamps in {absent, 1, 2},
+/// `a.has_news_for(&b)` counts exactly the authors that b lacks or knows with a strictly older timestamp.
+pub fn c13news() -> bool {
+    use iroh_docs::{AuthorHeads, AuthorId};
+    let mut bad = false;
+    let mk = |code: u32| {
+        let mut h = AuthorHeads::default();
+        for i in 0..3u32 {
+            let t = (code / 3u32.pow(i)) % 3;
+            if t > 0 {
+                h.insert(AuthorId::from(&[i as u8 + 1; 32]), t as u64);
+            }
+        }
+        h
+    };
+    for ca in 0..27u32 {
+        for cb in 0..27u32 {
+            let (a, b) = (mk(ca), mk(cb));
+            let want = a.iter().filter(|(au, t)| b.get(au).map(|tb| **t > tb).unwrap_or(true)).count() as u64;
+            let got = a.has_news_for(&b).map(|n| n.get()).unwrap_or(0);
+            if got != want {
+                eprintln!("c13news: ours {:?} theirs {:?}: reported {got} updates, expected {want}", a, b);
+                bad = true;
+            }
+        }
+    }
+    bad
+}
+
 pub fn run(id: &str) -> Option<bool> {
     Some(match id {
         "d2" => d2(),
@@ -281,6 +395,8 @@ pub fn run(id: &str) -> Option<bool> {
         "d4" => d4(),
         "d1" => d1(),
         "c17" => c17(),
+        "c13enc" => c13enc(),
+        "c13news" => c13news(),
         other => return iroh_docs::verif_incrate::witness::run(other),
     })
 }
